@@ -158,7 +158,17 @@ func (s *Service) proxyToSingleEndpoint(ctx context.Context, w http.ResponseWrit
 
 	// We've successfully written the response
 	duration := time.Since(stats.StartTime)
-	s.RecordSuccess(endpoint, duration.Milliseconds(), int64(bytesWritten))
+	switch {
+	case streamErr != nil:
+		// the client went away before the response had been delivered in full
+		s.RecordFailure(ctx, endpoint, duration, streamErr)
+	case resp.StatusCode >= http.StatusBadRequest:
+		// relayed faithfully, but what the client received is an error answer: counting it as
+		// a success would make an endpoint that only ever answers 500 look 100% healthy
+		s.RecordFailure(ctx, endpoint, duration, fmt.Errorf("backend answered with status %d", resp.StatusCode))
+	default:
+		s.RecordSuccess(endpoint, duration.Milliseconds(), int64(bytesWritten))
+	}
 
 	s.PublishEvent(core.ProxyEvent{
 		Type:      core.EventTypeProxySuccess,
